@@ -139,6 +139,14 @@ def sample_shell_contract(G):
         out = [('post_len', pts.n == Vo.int('self.n_batch')),
                ('post_in_shell', A.forall_idx(
                    pts.n, lambda j: M.good_row(b, idx, pts.at(j))))]
+        # only the sampled bound's proposal state / statistics flag change
+        bb = z3.Const('b!q', M.Bound)
+        out.append(('frame_other_bounds_sampling_state', z3.ForAll(
+            [bb], z3.Implies(bb != b.at(idx), z3.And(
+                z3.Select(M.sstate(Vn.st), bb) ==
+                z3.Select(M.sstate(Vo.st), bb),
+                z3.Select(M.statfresh(Vn.st), bb) ==
+                z3.Select(M.statfresh(Vo.st), bb))))))
         if len(res) == 2:
             out.append(('result_arity', tn))
             out.append(('post_n_bound', nbd >= pts.n))
@@ -213,6 +221,13 @@ def sample_shell_contract(G):
                    pa.flat.n, lambda j: M.good_row(b, idx, pa.flat.at(j)))),
                ('n_bound_counts', z3.And(nbd >= ns + idx_t.n, z3.Implies(
                    idx == b.n - 1, nbd == ns + idx_t.n)))]
+        bb = z3.Const('b!q', M.Bound)
+        out.append(('only_this_bound_is_sampled', z3.ForAll(
+            [bb], z3.Implies(bb != b.at(idx), z3.And(
+                z3.Select(M.sstate(V.st), bb) ==
+                z3.Select(M.sstate(Vo.st), bb),
+                z3.Select(M.statfresh(V.st), bb) ==
+                z3.Select(M.statfresh(Vo.st), bb))))))
         return out + idx_t_facts(V, Vo)
 
     def inv1(V):
@@ -253,8 +268,9 @@ def sample_shell_contract(G):
     c = FnContract(
         SQ + 'sample_shell', params=['index', 'shell_t'],
         defaults=dict(shell_t=None), pre=pre, post=post, result=result,
-        mod_ghost=['sstate', 'rng'], mod_args=['shell_t'],
-        loops={0: LoopSpec(inv=inv0, prepare=prepare0),
+        mod_ghost=['sstate', 'rng', 'statfresh'], mod_args=['shell_t'],
+        loops={0: LoopSpec(inv=inv0, prepare=prepare0,
+                           extra_mods=['$statfresh']),
                1: LoopSpec(inv=inv1),
                2: LoopSpec(inv=inv2, prepare=prepare2)})
     return c
@@ -459,9 +475,19 @@ def update_shell_info_contract(with_S=False):
                 S(Vn, nm), S(Vo, nm), idx)))
         out += M.S1_at(Vn, idx)
         return out
+    def result(ex, st, V):
+        # ghost: the statistics of this shell are now up to date (the body is
+        # proved to establish S1 for `index`)
+        b = S(V, 'bounds')
+        idx = norm(V.int('index'), b.n)
+        st.ghost['statfresh'] = z3.Store(M.statfresh(st), b.at(idx),
+                                         z3.BoolVal(True))
+        return None
     return FnContract(SQ + 'update_shell_info', params=['index'], pre=pre,
-                      post=post, mod_fields=['shell_n', 'shell_log_v',
-                                             'shell_log_l', 'shell_n_eff'])
+                      post=post, result=result,
+                      mod_fields=['shell_n', 'shell_log_v',
+                                  'shell_log_l', 'shell_n_eff'],
+                      loop_ghost=['statfresh'])
 
 
 # ---------------------------------------------------------------------------
@@ -477,7 +503,7 @@ def total_len(L_, st=None):
 def add_bound_contract(G):
     def pre(V):
         nb = S(V, 'bounds').n
-        out = M.InvAll(V)
+        out = M.InvAllS(V)
         out.append(('exploring', z3.Not(V.bool('self.explored'))))
         out.append(('enough_points_for_live_set', z3.Implies(
             nb >= 1, total_len(S(V, 'log_l'), V.st) > V.int('self.n_live'))))
@@ -487,7 +513,7 @@ def add_bound_contract(G):
         return fresh('bool', 'added')
 
     def post(Vo, Vn, res):
-        out = M.InvAll(Vn)
+        out = M.InvAllS(Vn)
         nbo, nbn = S(Vo, 'bounds').n, S(Vn, 'bounds').n
         out.append(('bound_count', nbn == z3.If(B(res), nbo + 1, nbo)))
         out.append(('first_bound_always_added', z3.Implies(nbo == 0, B(res))))
@@ -567,6 +593,11 @@ def add_bound_contract(G):
             out.append(('A2_transfer_blobs_aligned', z3.Implies(
                 z3.Not(bn), A.forall_idx(
                     f.n, lambda t: blt.flat.at(t) == Bl(f.at(t))))))
+        fr = M.statfresh(V.st)
+        out.append(('S_statistics_up_to_date', A.forall_idx(
+            nb - 1, lambda t: z3.Or(z3.Select(fr, b.at(t)),
+                                    M.never_sampled(V, t)))))
+        out.append(('S_new_shell_never_sampled', M.never_sampled(V, nb - 1)))
         out.append(('transfer_candidates', z3.And(
             z3.ForAll([j], z3.Implies(
                 z3.And(j >= 0, j < f.n),
@@ -583,7 +614,7 @@ def add_bound_contract(G):
         pre=pre, post=post, result=result,
         mod_fields=['bounds', 'points', 'log_l', 'blobs', 'shell_t',
                     'points_t', 'log_l_t', 'blobs_t'] + SHELL_ARRAYS,
-        mod_ghost=['rng', 'sstate', 'clock'],
+        mod_ghost=['rng', 'sstate', 'clock', 'statfresh'],
         loops={0: LoopSpec(inv=inv0, prepare=prepare0)})
 
 
@@ -594,7 +625,7 @@ def add_samples_contract():
     def pre(V):
         nb = S(V, 'bounds').n
         sh = V.int('shell')
-        out = M.InvAll(V)
+        out = M.InvAllS(V)
         out.append(('shell_in_range', z3.And(sh >= -1, sh < nb, nb >= 1)))
         out.append(('last_shell_by_minus_one_only_while_exploring', z3.Implies(
             sh == -1, z3.Not(V.bool('self.explored')))))
@@ -606,7 +637,7 @@ def add_samples_contract():
         return r
 
     def post(Vo, Vn, res):
-        out = M.InvAll(Vn)
+        out = M.InvAllS(Vn)
         out.append(('one_batch_evaluated', Vn.int('self.n_like') ==
                     Vo.int('self.n_like') + Vo.int('self.n_batch')))
         out.append(('bounds_unchanged', A.arr_eq(
@@ -638,7 +669,7 @@ def add_samples_contract():
         mod_fields=['points', 'log_l', 'blobs', 'shell_t', 'n_like',
                     'blobs_dtype', 'shell_n_sample', 'shell_n', 'shell_log_v',
                     'shell_log_l', 'shell_n_eff'],
-        mod_ghost=['rng', 'sstate'])
+        mod_ghost=['rng', 'sstate', 'statfresh'])
 
 
 # ---------------------------------------------------------------------------
@@ -655,6 +686,10 @@ def discard_setter_contract():
         for nm in ('shell_n', 'shell_log_v', 'shell_log_l', 'shell_n_eff'):
             out.append(('len_' + nm, S(Vn, nm).n == S(Vo, nm).n))
         out += M.inv_N(Vn)
+        b = S(Vn, 'bounds')
+        fr = M.statfresh(Vn.st)
+        out.append(('S_every_shell_recomputed', A.forall_idx(
+            b.n, lambda t: z3.Select(fr, b.at(t)))))
         return out
 
     def raises(Vo, Vn, exc):
@@ -674,12 +709,16 @@ def discard_setter_contract():
             return S(V, 'shell_n').at(i) == ll.n
         out.append(('updated_prefix', z3.ForAll([i], z3.Implies(
             z3.And(i >= 0, i < kk), body(i)))))
+        b = S(V, 'bounds')
+        fr = M.statfresh(V.st)
+        out.append(('S_prefix_recomputed', A.forall_idx(
+            kk, lambda t: z3.Select(fr, b.at(t)))))
         return out
     return FnContract(
         SQ + 'discard_exploration.setter', params=['discard_exploration'],
         pre=pre, post=post, raises=raises,
         mod_fields=['_discard_exploration', 'shell_n', 'shell_log_v',
-                    'shell_log_l', 'shell_n_eff'],
+                    'shell_log_l', 'shell_n_eff'], mod_ghost=['statfresh'],
         loops={0: LoopSpec(inv=inv0)})
 
 
@@ -691,7 +730,7 @@ def run_contract(G):
               'discard_exploration', 'timeout', 'verbose']
 
     def pre(V):
-        return M.InvRun(V)
+        return M.InvRun(V) + M.inv_S(V)
 
     def result(ex, st, V):
         return fresh('bool', 'success')
@@ -702,7 +741,7 @@ def run_contract(G):
                 zv(V.raw('n_like_max'), 'real'))
 
     def post(Vo, Vn, res):
-        out = M.InvRun(Vn)
+        out = M.InvRun(Vn) + M.inv_S(Vn)
         n_shell, n_eff, n_max = params(Vo)
         nl_o, nl_n = Vo.int('self.n_like'), Vn.int('self.n_like')
         nbt = Vo.int('self.n_batch')
@@ -722,7 +761,7 @@ def run_contract(G):
         n_shell, n_eff, n_max = params(Vo)
         nl_o, nl = Vo.int('self.n_like'), V.int('self.n_like')
         nbt = V.int('self.n_batch')
-        return M.InvRun(V) + [
+        return M.InvRun(V) + M.inv_S(V) + [
             ('has_first_bound', S(V, 'bounds').n >= 1),
             ('N_budget', z3.And(nl >= nl_o, z3.Or(
                 nl == nl_o, z3.ToReal(nl) < n_max + z3.ToReal(nbt)),
@@ -814,10 +853,10 @@ def run_contract(G):
                     'points_t', 'log_l_t', 'blobs_t', 'n_like', 'blobs_dtype',
                     'explored', '_discard_exploration', 'shell_n_sample_exp',
                     'shell_end_exp', 'n_update_iter', 'n_like_iter'] +
-        SHELL_ARRAYS, mod_ghost=['rng', 'sstate', 'clock'],
+        SHELL_ARRAYS, mod_ghost=['rng', 'sstate', 'clock', 'statfresh'],
         loops={0: LoopSpec(inv=inv0, step=step0, extra_mods=[
             ('self', '_discard_exploration'), ('self', 'shell_n'),
             ('self', 'shell_log_v'), ('self', 'shell_log_l'),
-            ('self', 'shell_n_eff'), '$clock']),
+            ('self', 'shell_n_eff'), '$clock', '$statfresh']),
             1: LoopSpec(inv=inv1, prepare=prepare1)})
     return c
